@@ -215,6 +215,30 @@ def main():
                     ck.violation({"engine": "own-name", "module": fn, "entry": e, "opened": comp, "broken": "monitor: companion outside the module's directory"}, key="own-name-dir:%s" % fn)
                 elif e == "LP":
                     ck.nontrivial(("own", fn))
+        # the same modules WITHOUT their companion, in a directory whose parent names contain '-' and '.' (fallback names are derived from the
+        # module's own name - e.g. the Kid Chaos "<name up to the last '-'>.set" of Magnetic Fields modules - and must stay in its directory),
+        # with decoys one level up
+        d3p = os.path.join(base, "up-loads.d"); d3 = os.path.join(d3p, "sub-dir")
+        os.makedirs(d3, exist_ok=True)
+        for decoy in ("up.set", "up-loads.set", "up-loads.d.set", "sub.set"):
+            for dd in (base, d3p): open(os.path.join(dd, decoy), "wb").write(b"U" * 4000)
+        for fn in ("zob-the-zob.mod", "mfp.crystaldragon title"):
+            src = os.path.join(data, fn)
+            if not os.path.exists(src): continue
+            shutil.copy(src, d3); p = os.path.join(d3, fn)
+            r = V.run([drv, "trace", "LP", p], env=env, timeout=120, cwd=base)
+            ck.count()
+            calls = [l.split() for l in r.stdout.split("\n") if l and not l.startswith("RET")]
+            opens = [bytes.fromhex(c[1]).decode("latin1") for c in calls if c[0] in ("OPEN", "OPENDIR")]
+            temps = [bytes.fromhex(c[1]).decode("latin1") for c in calls if c[0] == "MKSTEMP"]
+            outside = [o for o in opens if o != p and o not in temps and os.path.dirname(os.path.abspath(o)) != d3 and os.path.abspath(o) != d3]
+            if r.returncode != 0:
+                ck.violation({"engine": "own-name", "module": fn, "entry": "LP", "broken": "sanitizer / crash (companion missing)", "stderr": r.stderr[-1200:]}, key="own-name-crash2:%s" % fn)
+            elif outside:
+                ck.violation({"engine": "own-name", "module": fn, "entry": "LP", "opened": outside, "module_dir": d3,
+                              "broken": "monitor: with its companion missing the loader tried a file outside the module's directory"}, key="own-name-fallback:%s" % fn)
+            else:
+                ck.nontrivial(("own-missing", fn))
         ck.engine_stat("trace", songs=len(songs), violations=nviol)
         ck.sample({"engine": "trace", "song_names": [n.decode("latin1") for n in songs[0]], "module_dir": moddir})
     finally:
